@@ -423,7 +423,7 @@ func borderScopes(thorough bool) []Scope {
 // holes.  This enumerates rectilinear shapes wholesale - necks, combs, C/U/O shapes, moats, holes
 // next to thin walls - instead of one hand-made family per shape.  Variants: collinear vertices
 // merged or every grid point on the boundary kept as a vertex; start vertices per ring as given by
-// rots (fractions of the ring length in eighths).
+// rots (fractions of the ring length in eighths; nil = every start vertex).
 func cellUnionFamily(xs, ys []int64, rots []int, keepGridPoints []bool) [][][]ref.P {
 	nx, ny := len(xs)-1, len(ys)-1
 	n := nx * ny
@@ -541,6 +541,23 @@ func cellUnionFamily(xs, ys []int64, rots []int, keepGridPoints []bool) [][][]re
 					holes = append(holes, r)
 				}
 			}
+			if rots == nil {
+				// every start vertex of every ring: ring r starts at its vertex k mod len(r), k = 0 .. longest ring - 1
+				longest := len(shell)
+				for _, h := range holes {
+					if len(h) > longest {
+						longest = len(h)
+					}
+				}
+				for k := 0; k < longest; k++ {
+					rings := [][]ref.P{rotations(shell, []int{k})[0]}
+					for _, h := range holes {
+						rings = append(rings, rotations(h, []int{k})[0])
+					}
+					out = append(out, rings)
+				}
+				continue
+			}
 			for _, e := range rots {
 				rings := [][]ref.P{rotations(shell, []int{len(shell) * e / 8})[0]}
 				for _, h := range holes {
@@ -558,10 +575,7 @@ func cellUnionFamily(xs, ys []int64, rots []int, keepGridPoints []bool) [][][]re
 // cells are (wide enough to have interior more than one pixel from the boundary, for C04's
 // coverage clause, or about one pixel, for heavy collapsing).
 func cellScopes(thorough bool) []Scope {
-	rots := []int{0, 3}
-	if thorough {
-		rots = []int{0, 1, 3, 5, 6}
-	}
+	var rots []int // every start vertex: spike removal and ring splitting work on the vertex list from the start vertex, without wrap-around
 	both := []bool{false, true}
 	type layout struct {
 		name   string
@@ -580,6 +594,16 @@ func cellScopes(thorough bool) []Scope {
 		)
 	}
 	var scs []Scope
+	// 4x4 cells: three rows thinner than a pixel inside one pixel row (a strip with a slit in it) below a wide row,
+	// columns wide / very wide / thin / wide; every start vertex, collinear vertices merged; 32-pixel grid
+	big := cellUnionFamily([]int64{16, 24, 57, 59, 89}, []int64{16, 17, 18, 19, 48}, nil, []bool{false})
+	scs = append(scs, Scope{Name: "F-cells4x4:strip-with-slit", GS: GridSpec{Kind: "synth", Deepest: 1, Px: 1, Sub: 4, OffPx: [2]int64{0, 0}, TileWidth: 1},
+		Spec: lat.Spec{Explicit: big, Valid: true}, IDSets: [][]int{{1}}, Cfgs: keepCfgs})
+	if thorough {
+		tr := cellUnionFamily([]int64{16, 17, 18, 19, 48}, []int64{16, 24, 57, 59, 89}, nil, []bool{false, true})
+		scs = append(scs, Scope{Name: "F-cells4x4:strip-with-slit-transposed", GS: GridSpec{Kind: "synth", Deepest: 1, Px: 1, Sub: 4, OffPx: [2]int64{0, 0}, TileWidth: 1},
+			Spec: lat.Spec{Explicit: tr, Valid: true}, IDSets: [][]int{{1}}, Cfgs: keepCfgs})
+	}
 	for _, l := range ls {
 		scs = append(scs, Scope{Name: "F-cells:" + l.name, GS: synthGS(0, 4, [2]int64{3, 5}), Spec: lat.Spec{Explicit: cellUnionFamily(l.xs, l.ys, rots, both), Valid: true}, IDSets: [][]int{{0}}, Cfgs: keepCfgs})
 	}
